@@ -31,6 +31,10 @@ FINDINGS = {
 
 
 def annotate(op, reply):
+    if op == "gwrace" and reply.startswith("gwrace "):
+        w = reply.split()
+        if len(w) > 1 and w[1] in ("acq", "cancel"):
+            return op + " " + w[1]
     if op.startswith("go ") and reply.startswith("go "):
         w = reply.split()
         if len(w) > 2 and w[2] in ("acq", "cancel"):
@@ -71,6 +75,11 @@ def spec_violated(rep):
                             "overflowed int64 nanoseconds" % asked)
                 if item.endswith(":timeout=0"):
                     return "gateway Lock(TTL=%s ms) was released at once (TTL floor missing)" % asked
+        if w and w[0] == "gwrace" and len(w) == 4:
+            if w[3] != "left=0":
+                return "the Lock RPC whose caller gave up while it was being granted left a caller on the key (%s)" % line
+            if (w[1], w[2]) not in (("acq", "ok"), ("cancel", "err")):
+                return "the Lock RPC took the `%s` branch but answered `%s` (%s)" % (w[1], w[2], line)
         if op.startswith("unlockx ") and len(w) > 3 and w[0] == "unlockx" and w[3].startswith("ok"):
             return ("unlock with a foreign ID released another caller's lock: `%s` (an id issued on another key) was accepted on key %s (%s)"
                     % (op, w[2], line))
